@@ -219,12 +219,28 @@ pub fn absorbing_rich_layout(rng: &mut Rng) -> Layout {
     let prefix = from.clone();
     from.push(fin);
     let nt = rng.below(3);
-    let to = distinct(rng, &outs, nt);
+    let mut to = distinct(rng, &outs, nt);
+    // chords that output their own final key (the style of the built-in layouts), sometimes behind a modifier
+    if rng.chance(1, 4) { to = if rng.chance(1, 2) { vec![fin] } else { vec![prefix[0], fin] }; }
     let mut absorbing: Vec<KeyCode> = prefix.iter().cloned().filter(|_| rng.chance(2, 3)).collect();
     if absorbing.is_empty() && rng.chance(3, 4) { absorbing.push(prefix[0]); }
     if rng.chance(1, 2) { absorbing.reverse(); }
     let repeat = match rng.below(8) { 0 => Repeat::Disabled, 1 => Repeat::Special { keys: vec![X], delay_ms: 130, interval_ms: 30 }, _ => Repeat::Normal };
     mappings.push(Mapping { from, to, repeat, absorbing });
+  }
+  // a single-key mapping from another key onto a key some chord already outputs (shared outputs), in any
+  // repeat mode: the no-repeat / special-repeat paths then meet keys handed back by release_absorbed_keys
+  if rng.chance(1, 2) {
+    let shared: Vec<KeyCode> = mappings.iter().flat_map(|m| m.to.iter().cloned()).collect();
+    let from_key = *rng.pick(&[F, C, B, X]);
+    if !shared.is_empty() && !mappings.iter().any(|m| m.from.len() == 1 && m.from[0] == from_key) {
+      let y = *rng.pick(&shared);
+      let to = if rng.chance(1, 4) { vec![LEFTSHIFT, y] } else { vec![y] };
+      let mut t2: Vec<KeyCode> = Vec::new();
+      for k in to { if !t2.contains(&k) { t2.push(k); } }
+      let repeat = match rng.below(3) { 0 => Repeat::Disabled, 1 => Repeat::Special { keys: vec![X], delay_ms: 130, interval_ms: 30 }, _ => Repeat::Normal };
+      mappings.push(Mapping { from: vec![from_key], to: t2, repeat, absorbing: vec![] });
+    }
   }
   Layout { mappings }
 }
